@@ -2762,19 +2762,26 @@ int link_function_mips(
 
   for (n = 0; n < size; n = n + 4)
   {
+    // A function whose size is not a multiple of 4 ends inside this word:
+    // the bytes after its end belong to something else and are not copied
+    // (the word is filled with zeros so the next function stays aligned).
+    uint8_t word[4] = { 0, 0, 0, 0 };
+
+    for (int i = 0; i < 4 && n + i < size; i++) { word[i] = code[n + i]; }
+
     if (asm_context->memory.endian == ENDIAN_LITTLE)
     {
-      opcode = code[n + 0] |
-              (code[n + 1] << 8) |
-              (code[n + 2] << 16) |
-              (code[n + 3] << 24);
+      opcode = word[0] |
+              (word[1] << 8) |
+              (word[2] << 16) |
+              (word[3] << 24);
     }
       else
     {
-      opcode = code[n + 3] |
-              (code[n + 2] << 8) |
-              (code[n + 1] << 16) |
-              (code[n + 0] << 24);
+      opcode = word[3] |
+              (word[2] << 8) |
+              (word[1] << 16) |
+              (word[0] << 24);
     }
 
     if ((opcode & 0xfc000000) == 0x0c000000)
